@@ -53,6 +53,27 @@ def closure_canon(prog, e):
     return canon(rec(e))
 
 
+def expand_cells(sy, e, depth=0):
+    """a mutably borrowed temporary with one initialising definition (`&mut slice.iter()` handed to `all`/`any`) stands
+    for that definition: `all(&mut it, p)` is a statement about the slice `it` was made from"""
+    if not isinstance(e, tuple) or not e or not isinstance(e[0], str) or depth > 6:
+        return e
+    if e[0] == "local" and e[1] in sy.cells and len(sy.f.defs.get(e[1], [])) == 1:
+        o = strip(sy.origin(e))
+        if o != e and o[0] == "call" and o[1].split("::")[-1] in ("iter", "into_iter", "iter_mut", "copied", "cloned", "enumerate", "rev", "take", "skip"):
+            return expand_cells(sy, o, depth + 1)
+        return e
+    out = []
+    for y in e:
+        if isinstance(y, tuple) and y and isinstance(y[0], str):
+            out.append(expand_cells(sy, y, depth + 1))
+        elif isinstance(y, tuple):
+            out.append(tuple(expand_cells(sy, z, depth + 1) if isinstance(z, tuple) else z for z in y))
+        else:
+            out.append(y)
+    return tuple(out)
+
+
 def guards_of(f, sy):
     """[(kind, pass_predicate_expr, truth, span)] for each conditional whose failing arm panics.
     kind: 'live' (assert! or hand-written check) / 'belief' (debug_assert!, invariant!)"""
@@ -68,7 +89,7 @@ def guards_of(f, sy):
         pb = pan[0]
         macros = f.blocks[pb]["term"]["sp"]["macros"]
         kind = "belief" if ("debug_assert" in macros or "invariant" in macros) else "live"
-        e = sy.operand(t["on"])
+        e = expand_cells(sy, sy.operand(t["on"]))
         # truth value on the passing arm
         passing = [b for b in succ if b != pb][0]
         vals = [int(a[0]) for a in t["arms"] if a[1] == passing]
